@@ -87,6 +87,12 @@ def instances(tier, seed):
         sp.T = ('free', Fr(3, 2))
         for h in (['TR'], ['TR', 'ST'], ['TR', 'Q_sample', 'TR']):
             add(history=h, spec=sp, cfg=Cfg(method, N=2, M=M, intg=intg or 'rk', grid=fam.G_UNI, degree=2, scheme='radau'), no_initial=True)
+    # a first solve attempt made while a parameter still has no value (it raises), then the value is given: the next query is that of a fresh OCP
+    for mi, (method, intg, M) in enumerate(meths):
+        sp = base_spec()
+        [p_ for p_ in sp.params if p_.name == 'a'][0].value = None
+        for h in (['SOLVE', 'SV'], ['Q_sample', 'SV', 'SOLVE']):
+            add(history=h, spec=sp, cfg=Cfg(method, N=2, M=M, intg=intg or 'rk', grid=fam.G_UNI, degree=2, scheme='radau'), no_initial=True, twin=False, failing_first=True)
     # discrete-time model: an update rule re-assigned after a transcription
     for mi, (method, M) in enumerate((('MS', 2), ('SS', 1), ('MS', 1))):
         sp = copy.deepcopy(fam.diffeq_core()[0])
@@ -441,7 +447,14 @@ def run(item):
         if not item.get('no_initial'):
             b.ocp._transcribed          # initial transcription
         try:
-            for op in hist:
+            for oi_, op in enumerate(hist):
+                if item.get('failing_first') and oi_ == 0:
+                    # the specification is incomplete (a parameter without value): this first query is EXPECTED to raise
+                    try:
+                        apply_op(op, b, spec, cfg, state)
+                    except Exception:
+                        pass
+                    continue
                 spec, cfg = apply_op(op, b, spec, cfg, state)
         except Exception as e:
             rejected = 'op raised: %s' % str(e).splitlines()[-1][:120]
